@@ -2,12 +2,15 @@
 //! limit (so that an absurd pre-allocation becomes a deterministic allocation failure, i.e. an abort of
 //! the worker process, instead of depending on the machine's overcommit policy).
 use std::alloc::{GlobalAlloc, Layout, System};
-use std::sync::atomic::{AtomicBool, AtomicUsize, Ordering};
+use std::sync::atomic::{AtomicBool, AtomicIsize, AtomicUsize, Ordering};
 
 pub struct Counting;
 
-pub static LIVE: AtomicUsize = AtomicUsize::new(0);
-pub static PEAK: AtomicUsize = AtomicUsize::new(0);
+/// Counting is off unless a check asks for it (C08's workers): shared counters updated from 16 threads
+/// on every allocation make allocation-heavy checks several times slower.
+pub static COUNTING: AtomicBool = AtomicBool::new(false);
+pub static LIVE: AtomicIsize = AtomicIsize::new(0);
+pub static PEAK: AtomicIsize = AtomicIsize::new(0);
 pub static BIGGEST: AtomicUsize = AtomicUsize::new(0);
 pub static LIMIT_ON: AtomicBool = AtomicBool::new(false);
 pub static REFUSED: AtomicUsize = AtomicUsize::new(0);
@@ -15,7 +18,10 @@ pub const SINGLE_LIMIT: usize = 1 << 30;
 
 #[inline]
 fn on_alloc(size: usize) {
-    let live = LIVE.fetch_add(size, Ordering::Relaxed) + size;
+    if !COUNTING.load(Ordering::Relaxed) {
+        return;
+    }
+    let live = LIVE.fetch_add(size as isize, Ordering::Relaxed) + size as isize;
     PEAK.fetch_max(live, Ordering::Relaxed);
     BIGGEST.fetch_max(size, Ordering::Relaxed);
 }
@@ -44,7 +50,9 @@ unsafe impl GlobalAlloc for Counting {
         p
     }
     unsafe fn dealloc(&self, ptr: *mut u8, layout: Layout) {
-        LIVE.fetch_sub(layout.size(), Ordering::Relaxed);
+        if COUNTING.load(Ordering::Relaxed) {
+            LIVE.fetch_sub(layout.size() as isize, Ordering::Relaxed);
+        }
         unsafe { System.dealloc(ptr, layout) }
     }
     unsafe fn realloc(&self, ptr: *mut u8, layout: Layout, new_size: usize) -> *mut u8 {
@@ -56,8 +64,8 @@ unsafe impl GlobalAlloc for Counting {
         if !p.is_null() {
             if new_size >= layout.size() {
                 on_alloc(new_size - layout.size());
-            } else {
-                LIVE.fetch_sub(layout.size() - new_size, Ordering::Relaxed);
+            } else if COUNTING.load(Ordering::Relaxed) {
+                LIVE.fetch_sub((layout.size() - new_size) as isize, Ordering::Relaxed);
             }
         }
         p
@@ -65,7 +73,8 @@ unsafe impl GlobalAlloc for Counting {
 }
 
 /// Starts a measurement window: returns the live byte count at its start.
-pub fn window_start() -> usize {
+pub fn window_start() -> isize {
+    COUNTING.store(true, Ordering::Relaxed);
     let live = LIVE.load(Ordering::Relaxed);
     PEAK.store(live, Ordering::Relaxed);
     BIGGEST.store(0, Ordering::Relaxed);
@@ -73,6 +82,6 @@ pub fn window_start() -> usize {
 }
 
 /// (peak growth over the window, biggest single request)
-pub fn window_end(start: usize) -> (usize, usize) {
-    (PEAK.load(Ordering::Relaxed).saturating_sub(start), BIGGEST.load(Ordering::Relaxed))
+pub fn window_end(start: isize) -> (usize, usize) {
+    ((PEAK.load(Ordering::Relaxed) - start).max(0) as usize, BIGGEST.load(Ordering::Relaxed))
 }
